@@ -584,6 +584,17 @@ class Ref:
     def op_copy(self, op, o, out):
         self.graveyard = []  # the driver continues on the copy; removed objects belong to the original's history
 
+    def op_prune(self, op, o, out):
+        # "Remove metabolites not involved in any reactions" / "Remove reactions with no assigned metabolites"; the result is
+        # a new model, so objects removed earlier belong to the argument's history
+        if op["what"] == "mets":
+            for mid in [m for m in self.mets if not any(m in r["mets"] for r in self.rxns.values())]:
+                self._remove_met_entry(mid)
+        else:
+            for rid in [rid for rid, r in self.rxns.items() if not r["mets"]]:
+                self._remove_rxn(rid)
+        self.graveyard = []
+
     def op_add_var(self, op, o, out):
         if not out.startswith("raised"):
             self.user_vars.add(f"uvar{op['name']}")
